@@ -37,7 +37,7 @@ RGB = ["dev = RGBLed(3, 5, 6)"]
 BUZ = ["dev = Buzzer(8)"]
 SRV = ["dev = Servo(9)"]
 MOT = ["dev = DCMotor(2, 3, 4)"]
-LCDP = ["dev = LCD(rs=12, en=11, d4=5, d5=4, d6=3, d7=2)"]
+LCDP = ["dev = LCD(rs=12, en=11, d4=5, d5=4, d6=3, d7=2, backlight_pin=9)"]
 BTN = ["dev = Button(2)"]
 POT = ['dev = Potentiometer("A0")']
 ULT = ["dev = Ultrasonic(7, 8)"]
@@ -356,7 +356,7 @@ def main():
         out = {"rows": {}, "host_only": {}, "unclassified": [], "stale": []}
         for name, spec in ROWS.items():
             out["rows"][name] = {"sig": signature_of(spec["target"]), "device_params": list(spec["fields"].keys()),
-                                 "fields": spec["fields"], "call": spec["call"], "pre": spec["pre"]}
+                                 "fields": spec["fields"], "call": spec["call"], "pre": spec["pre"], "node": spec["node"]}
         for name, target in HOST_ONLY.items():
             out["host_only"][name] = {"sig": signature_of(target)}
         for name, target in surf.items():
